@@ -23,3 +23,32 @@ package riscv
 //@   ensures[csr] rv_post("csr", result) == rv_ref("csr", o.name, i.value, i.addr)
 //@   ensures[mem] rv_post("mem", result) == rv_ref("mem", o.name, i.value, i.addr)
 //@   ensures[pc] rv_post("pc", result) == rv_ref("pc", o.name, i.value, i.addr)
+
+// Parse is checked for both variants, every subset of the M and A extensions
+// and input lengths 0..6 (n bytes, all symbolic). p is the parser built by
+// the real NewParser for that configuration. word32(bs) is the little-endian
+// word in bs[0:4]; rv_defined / rv_named consult the RISC-V reference table
+// (mask/match per mnemonic, reserved fields zero).
+
+//@ func (Parser).Parse
+//@   enum xlen in XLENS, extm in BOOL, exta in BOOL, n in PARSELENS
+//@   input:bs bytes(n)
+//@   ensures[short] n < 4 ==> result1 != nil
+//@   ensures[accepts-exactly] n >= 4 ==> ((result1 == nil) == rv_defined(xlen, extm, exta, word32(bs)))
+//@   ensures[names] n >= 4 && result1 == nil ==> rv_named(xlen, extm, exta, word32(bs), insname(result0))
+//@   ensures[length] result1 == nil ==> result0.ByteLen == 4
+
+// String is checked for every entry of the six instruction tables, with i an
+// instruction of that entry (i.value matches its opcode pattern).
+// rv_text_faithful(i, result): for every other word w2 of the same entry at
+// the same address, String(w2) == result implies that the RISC-V reference
+// prescribes the same state change for both words (by C01 the lifted effects
+// have exactly that behaviour). Text equality is structural: "%d" and "x%d"
+// are assumed injective.
+
+//@ func (instruction).String
+//@   requires opcode_matches(*i.instrType, i.value)
+//@   requires rv_xlen() == 32 ==> i.addr < 4294967296
+//@   ensures[mnemonic-first] hasprefix(result, i.instrType.name, " ")
+//@   ensures[offset-base] (i.instrType.loadBytes > 0 || i.instrType.storeBytes > 0) && i.instrType.immediate != 0 ==> contains(result, "%d(x%d)")
+//@   ensures[faithful] rv_text_faithful(i, result)
